@@ -19,4 +19,22 @@ theorem go_forwarders_present :
     ∀ f ∈ ["let", "let*", "dolist", "dotimes", "do", "do*", "multiple-value-bind"], f ∈ mentionsGoTo := by
   decide
 
+/-- what the cleanup-bearing forms do on EVERY way out of their body is done from a `defer` statement of their
+`Call` method (followed one call level deep): a slip error is a Go panic, so only deferred code runs on the error
+path. unwind-protect evaluates its cleanup forms there, with-mutex-lock unlocks, with-open-file closes the stream,
+recover calls Go's recover. A `Call` that moves one of these out of its defer statements releases nothing when
+the body signals an error. -/
+def calledFromDefer (form fn : String) : Bool := ((deferred.lookup form).getD []).contains fn
+
+theorem unwind_protect_cleanup_is_deferred :
+    (calledFromDefer "unwind-protect" "EvalArg" || calledFromDefer "unwind-protect" "Eval") = true := by decide
+
+theorem mutex_unlock_is_deferred : calledFromDefer "with-mutex-lock" "Unlock" = true := by decide
+
+theorem stream_close_is_deferred : calledFromDefer "with-open-file" "Close" = true := by decide
+
+theorem recover_recovers_in_defer : calledFromDefer "recover" "recover" = true := by decide
+
+theorem ignore_errors_recovers_in_defer : calledFromDefer "ignore-errors" "recover" = true := by decide
+
 end SlipVerif.Theorems.GenC07
